@@ -922,8 +922,17 @@ class OmniParser(PVLParser):
     # it started from, see parse_module_post_hook().
     _last_value = None
 
+    # The position in self.doc of the equals sign of the Assignment
+    # Statement that is being (or was last) parsed, see _empty_value().
+    _eq_pos = None
+
     def _empty_value(self, pos):
-        eq_pos = self.doc.rfind("=", 0, pos)
+        if self._eq_pos is not None:
+            eq_pos = self._eq_pos
+        else:
+            # Best guess: the nearest equals sign before *pos*, but that
+            # could also be one inside a comment.
+            eq_pos = self.doc.rfind("=", 0, pos)
         lc = linecount(self.doc, eq_pos)
         self.errors.append(lc)
         return EmptyValueAtLine(lc)
@@ -940,8 +949,27 @@ class OmniParser(PVLParser):
         nodash = re.sub(r"-[\n\r\f]\s*", "", s)
         self.doc = nodash
         self._last_value = None
+        self._eq_pos = None
 
         return super().parse(nodash)
+
+    def parse_around_equals(self, tokens: abc.Generator) -> None:
+        """Overrides the parent function to do the same thing, but also
+        remember the position of the equals sign, so that an empty value
+        can be reported at the line of its equals sign.
+        """
+        for t in tokens:
+            if t == "=":
+                self._eq_pos = t.pos
+                break
+            elif not t.is_WSC():
+                tokens.send(t)
+                raise ValueError(f'Expecting "=", got: {t}')
+        else:
+            raise ParseError('Expecting "=", but ran out of tokens.')
+
+        self.parse_WSC_until(None, tokens)
+        return
 
     def parse_module_post_hook(
         self, module: MutableMappingSequence, tokens: abc.Generator
@@ -983,6 +1011,8 @@ class OmniParser(PVLParser):
                     # Fix the previous entry
                     module.pop()
                     module.append(last_k, self._empty_value(t.pos))
+                    # This equals sign belongs to the next assignment:
+                    self._eq_pos = t.pos
                     # Now use last_token as the parameter name
                     # for the next assignment, and we must
                     # reproduce the last part of parse-assignment:
